@@ -56,3 +56,11 @@ package expire
 //@   property C09
 //@   -- a hidden session only ever reveals whitelisted keys
 //@   ensures hides: result.1 ==> maphas(k.whitelist, s)
+//
+//@ func Middleware#1
+//@   property C09
+//@   -- the middleware that is installed carries the configured allowance and whitelist and
+//@   -- wraps exactly the handler it was given
+//@   ensures built_from_configuration: dyntype(result) == "expireMiddleware" && dyn(result, "next") == next &&
+//@       dyn(result, "expireAfter") == ab.Config.Modules.ExpireAfter &&
+//@       dyn(result, "sessionWhitelist") == ab.Config.Storage.SessionStateWhitelistKeys
